@@ -30,7 +30,7 @@ type c15Case struct {
 	SrcMixed bool `json:"src_mixed,omitempty"`
 }
 
-var c15Forms = []string{"native", "alias", "ptr-alias", "ptr-native", "aliasS", "read-only", "zero", "freed", "nil", "int", "string", "condition", "nil-ptr-alias", "nil-ptr-native", "zero-alias",
+var c15Forms = []string{"native", "alias", "ptr-alias", "ptr-native", "aliasS", "read-only", "read-only-alias", "read-only-aliasS", "read-only-ptr-alias", "read-only-ptr-native", "zero", "freed", "nil", "int", "string", "condition", "nil-ptr-alias", "nil-ptr-native", "zero-alias",
 	"nil-pp-native", "nil-pp-alias", "nil-ppp-native", "ptr-to-nil-ptr", "pp-native", "pp-alias"}
 
 // c15RunSelf: the destination is the source itself (the same handle, an alias of it, a pointer to it).
@@ -188,6 +188,22 @@ func c15Run(c *Ctx, cs c15Case, count bool) {
 	case "read-only":
 		dstNative.SetReadOnly(true)
 		dst, usable = dstNative, false
+	case "read-only-alias", "read-only-aliasS", "read-only-ptr-alias", "read-only-ptr-native":
+		// the flag is set through the native handle; the destination arrives through another kind of handle
+		dstNative.SetReadOnly(true)
+		usable = false
+		switch cs.DstForm {
+		case "read-only-alias":
+			dst = StackAlias(dstNative)
+		case "read-only-aliasS":
+			dst = StackAliasS(dstNative)
+		case "read-only-ptr-alias":
+			a := StackAlias(dstNative)
+			dst = &a
+		default:
+			a := dstNative
+			dst = &a
+		}
 	case "zero":
 		dst, usable = stackage.Stack{}, false
 	case "zero-alias":
